@@ -165,21 +165,35 @@ class _StubManager:
         self.evaluator_config.metrics_params = {"box_scale_0m": s0, "box_scale_100m": s100, "min_points_threshold": 1}
 
 
-def frame_classification(rot, min_points, scales, two_objects, sym_points=1):
-    """SensingFrameResult.evaluate_frame + SensingEvaluationManager.crop_pointcloud."""
+def scale_factor():
+    """distance-dependent footprint scale: linear through (0 m, scale_0m) and (100 m, scale_100m) at *every* distance
+    (also beyond 100 m), identically in the frame config and in util.math (the manager's crop uses the latter)."""
+    s0, s100 = real("scale_0m", 0, 3, lo_strict=True), real("scale_100m", 0, 3, lo_strict=True)
+    d = real("distance", 0, 500)
+    cfg = SensingFrameConfig(None, s0, s100, 1)
+    want = s0 + (s100 - s0) * d / 100
+    a, b = cfg.get_scale_factor(d), get_bbox_scale(d, s0, s100)
+    return Out(parts={"frame_config_scale_is_linear": L.close(a, want, 1e-9), "util_scale_is_linear": L.close(b, want, 1e-9),
+                      "both_agree": L.close(a, b, 1e-9)}, obs={"a": a, "b": b})
+
+
+def frame_classification(rot, min_points, scales, two_objects, sym_points=1, shift=0.0):
+    """SensingFrameResult.evaluate_frame + SensingEvaluationManager.crop_pointcloud.
+    `shift`: the whole scene moved along x (objects farther than 100 m: extrapolated scale factors)."""
     s0, s100 = scales
     vis = choose("visibility", [None, Visibility.FULL, Visibility.MOST, Visibility.PARTIAL, Visibility.NONE,
                                 Visibility.UNAVAILABLE])
-    centers = [(8.0, 1.0, 0.0), (16.0, -6.0, 0.0)][: 2 if two_objects else 1]
+    centers = [(8.0 + shift, 1.0, 0.0), (16.0 + shift, -6.0, 0.0)][: 2 if two_objects else 1]
     objs = [_box(f"g{k}", c, rot if k == 0 else "0", visibility=vis if k == 0 else Visibility.FULL)
             for k, c in enumerate(centers)]
     # symbolic points, plus concrete ones: one well inside the first box, one in the area outside every box
-    pts = [[real(f"p{i}_x", 0, 25), real(f"p{i}_y", -12, 8), real(f"p{i}_z", -2, 2)] for i in range(sym_points)]
-    pts += [[build.const(Fraction(81, 10)), build.const(Fraction(11, 10)), build.const(Fraction(1, 10))],
-            [build.const(Fraction(4)), build.const(Fraction(-8)), build.const(Fraction(0))]]
+    sh = Fraction(shift)
+    pts = [[real(f"p{i}_x", 0, 25) + build.const(sh), real(f"p{i}_y", -12, 8), real(f"p{i}_z", -2, 2)] for i in range(sym_points)]
+    pts += [[build.const(Fraction(81, 10) + sh), build.const(Fraction(11, 10)), build.const(Fraction(1, 10))],
+            [build.const(Fraction(4) + sh), build.const(Fraction(-8)), build.const(Fraction(0))]]
     pc = cloud(pts)
     # non-detection area: a prism covering x in [2, 22], y in [-10, 6], z in [-1.5, 1.5]
-    base = [(2.0, -10.0), (22.0, -10.0), (22.0, 6.0), (2.0, 6.0)]
+    base = [(2.0 + shift, -10.0), (22.0 + shift, -10.0), (22.0 + shift, 6.0), (2.0 + shift, 6.0)]
     area = [(x, y, 1.5) for x, y in base] + [(x, y, -1.5) for x, y in base]
     cfg = SensingFrameConfig(None, s0, s100, min_points)
     mgr = _StubManager(s0, s100)
@@ -218,9 +232,9 @@ def frame_classification(rot, min_points, scales, two_objects, sym_points=1):
     # failed non-detection points = in the prism and outside every scaled box (away from the surfaces)
     failed = [tuple(r) for arr in res.pointcloud_failed_non_detection for r in _rows(arr)]
     for i, p in enumerate(pts):
-        in_prism = L.And(p[0] > 2 + MARGIN, p[0] < 22 - MARGIN, p[1] > -10 + MARGIN, p[1] < 6 - MARGIN,
+        in_prism = L.And(p[0] > 2 + sh + MARGIN, p[0] < 22 + sh - MARGIN, p[1] > -10 + MARGIN, p[1] < 6 - MARGIN,
                          p[2] > -1.5 + MARGIN, p[2] < 1.5 - MARGIN)
-        out_prism = L.Or(p[0] < 2 - MARGIN, p[0] > 22 + MARGIN, p[1] < -10 - MARGIN, p[1] > 6 + MARGIN,
+        out_prism = L.Or(p[0] < 2 + sh - MARGIN, p[0] > 22 + sh + MARGIN, p[1] < -10 - MARGIN, p[1] > 6 + MARGIN,
                          p[2] < -1.5 - MARGIN, p[2] > 1.5 + MARGIN)
         out_all = L.And(*[strictly_outside(p, c, ("0" if k else rot), scale_of[k]) for k, c in enumerate(centers)])
         in_some = L.Or(*[strictly_inside(p, c, ("0" if k else rot), scale_of[k]) for k, c in enumerate(centers)])
@@ -255,7 +269,12 @@ def obligations(pid, tier):
         fr = [dict(rot=r, min_points=m, scales=sc, two_objects=t, sym_points=1) for r in ("0", "53", "-23")
               for m in (0, 1, 2, 3) for sc in ((1.0, 1.0), (1.0, 1.5)) for t in (False, True)]
         fr += [dict(rot="53", min_points=m, scales=(1.0, 1.5), two_objects=False, sym_points=2) for m in (1, 2, 3)]
+    fr += [dict(rot="53", min_points=1, scales=(1.0, 1.6), two_objects=False, sym_points=1, shift=150.0)]
+    if not quick:
+        fr += [dict(rot="-23", min_points=2, scales=(1.5, 1.0), two_objects=True, sym_points=1, shift=150.0)]
     return [
+        Obligation("scale_factor", scale_factor, cases=[{}],
+                   desc="distance-dependent scale: linear at every distance (beyond 100 m too), frame config = util.math"),
         Obligation("crop_exact", crop_exact, cases=crop,
                    desc="points reported inside = points inside the scaled footprint and between bottom and top; "
                         "partition; count; scale monotone"),
@@ -278,7 +297,8 @@ def meta(pid):
         "bounds": {"quick": "box: symbolic centre, exact yaw in {0, 53.1, -22.6 deg}, scale in {1/2, 1, 5/4} (+3/2 x for "
                             "monotonicity), 1 symbolic point, 3 or 4 columns; prisms: triangle, 2 "
                             "quads (both orientations), pentagon with symbolic offset; frame: 1-2 objects, 1 symbolic + 2 concrete points, "
-                            "min points 0..2, constant and distance-dependent scale, every visibility level",
+                            "min points 0..2, constant and distance-dependent scale, every visibility level, one scene beyond "
+                            "100 m; scale factor itself: symbolic distance in [0, 500] m and symbolic end-point scales",
                    "thorough": "6 rotations, 5 scales, 2 symbolic points, min points 0..3"},
         "outside": ["points within 1e-6 of a box / prism surface (the statement excludes boundary points)",
                     "symbolic scale factors (concrete set only: a symbolic scale makes the edge interpolation non-linear)",
